@@ -63,6 +63,11 @@ def write_replay(prop, v):
 
 
 def write_evidence(prop, tier, seed, res, wall, nviol):
+    global EVIDENCE_DIR
+    if os.path.realpath(os.environ.get('VERIF_REPO', '/repo')) != '/repo':
+        # a run against a scratch copy (mutant, seeded change) must not
+        # replace the evidence of the runs against /repo
+        EVIDENCE_DIR = os.path.join('/tmp', 'verif-evidence-scratch')
     os.makedirs(EVIDENCE_DIR, exist_ok=True)
     ev = {'property_id': prop, 'tier': tier, 'seed': seed,
           'level': res.level, 'coverage': res.coverage,
